@@ -278,7 +278,7 @@ fn sim_panic(p: &Box<dyn std::any::Any + Send>) -> bool {
 
 pub fn map_roundtrip<K: SimK, V: SimV, const C1: usize, const C2: usize>(m: &Map<K, V, C1>, cx: &mut Cx<K, V>, cfg: &SerdeCfg, pre: &Snap) {
     let aw = cx.cfg.alloc_window && cfg.bincode;
-    let diag = cfg.truncate.is_some() || cfg.flip_bit.is_some() || cfg.ser_fail_at.is_some();
+    let diag = cfg.truncate.is_some() || cfg.flip_bit.is_some() || cfg.ser_fail_at.is_some() || (!cfg.bincode && cfg.hint >= 2);
     let len = pre.len();
     if len > C2 {
         return;
@@ -380,7 +380,7 @@ pub fn map_roundtrip<K: SimK, V: SimV, const C1: usize, const C2: usize>(m: &Map
 
 pub fn set_roundtrip<K: SimK, V: SimV, const C1: usize, const C2: usize>(s: &Set<K, C1>, cx: &mut Cx<K, V>, cfg: &SerdeCfg, pre: &Snap) {
     let aw = cx.cfg.alloc_window && cfg.bincode;
-    let diag = cfg.truncate.is_some() || cfg.flip_bit.is_some() || cfg.ser_fail_at.is_some();
+    let diag = cfg.truncate.is_some() || cfg.flip_bit.is_some() || cfg.ser_fail_at.is_some() || (!cfg.bincode && cfg.hint >= 2);
     let len = pre.len();
     if len > C2 {
         return;
